@@ -3,7 +3,7 @@
 # object as `k8snetpolicy eval` does, for every ordered pair of pods / boundary addresses, three protocols and a
 # boundary port set; answers compared with the model (Model/EvalPoint.v, proved equal to the Spec and to the
 # list's connection set) and with the real `list` result of the same directory; the real binary on a sample.
-import ipaddress, json, os, subprocess
+import copy, ipaddress, json, os, subprocess
 from . import c01
 from .lib import core, gen, listcorr
 from .lib.core import cstr, cz, cnat, clist, cbool
@@ -150,6 +150,16 @@ def eval_part(run, tier, b, n, nbin, anp_always):
                         w['kind'] = 'Pod'
                         if run.rng.random() < 0.3:
                             w['owner'] = {'name': 'own-' + w['name'], 'kind': 'ReplicaSet'}
+                nss_ = sorted({w['ns'] for w in W['workloads']} | {n['name'] for n in W['namespaces']})
+                if len(nss_) >= 2 and run.rng.random() < 0.35:
+                    # the same workload (name, kind, owner, labels) in a second namespace, where other policies apply: one engine answers
+                    # the queries about both, so whatever it remembers about one must not be used for the other
+                    o = run.rng.choice(W['workloads'])
+                    other = run.rng.choice([n for n in nss_ if n != o['ns']])
+                    if not any(q['ns'] == other and q['name'] == o['name'] for q in W['workloads']):
+                        t = copy.deepcopy(o)
+                        t['ns'] = other
+                        W['workloads'].append(t)
                 for nsd in W['namespaces']:
                     if cli and run.rng.random() < 0.5:
                         nsd['obj'] = False          # no Namespace manifest: eval must still answer
